@@ -14,13 +14,33 @@ import re
 from collections import Counter
 from fractions import Fraction
 
+import json
+import sys
+
 import numpy as np
 
+import common
 from common import Ctx, Finding, Outcome, err_class
 
+sys.path.insert(0, str(common.VERIF / "tools"))
+import gen_periodic  # noqa: E402  (C01's translator, used read-only)
+
 PROPERTY = "C15"
-LEAN_TARGETS = ["QcelVerif.Props.C15", "QcelVerif.Props.C15Formula", "QcelVerif.Props.C15Nre", "QcelVerif.Driver.C15"]
+LEAN_TARGETS = [
+    "QcelVerif.Props.C15", "QcelVerif.Props.C15Formula", "QcelVerif.Props.C15Nre",
+    "QcelVerif.Lemmas.FormulaStr", "QcelVerif.Props.C15FormulaStr", "QcelVerif.Props.C15Symbols", "QcelVerif.Props.C15Frag",
+    "QcelVerif.Driver.C15",
+]
 DRIVER = "QcelVerif/Driver/C15.lean"
+
+
+def regen_periodic_table(ctx=None):
+    """lean/QcelVerif/Gen/PT.lean <- qcelemental/data/nist_2011_atomic_weights.py of the tree under check
+    (C01's translator; Props/C15Symbols.lean decides symbol well-formedness over the whole table)"""
+    gen_periodic.gen_pt()
+
+
+TRANSLATORS = [regen_periodic_table]
 THEOREMS = [
     ("QcelVerif.Fragments.grouped_atoms_conserved", "group_fragments=True: the atoms handed to the constructor are exactly the atoms of the real fragments then of the ghost fragments, in the order requested (index by index); flags true.. then false..; new index lists have the sizes of the chosen fragments and concatenate to 0..n'-1"),
     ("QcelVerif.Fragments.ordered_atoms_conserved", "group_fragments=False, no atom in two fragments: atoms = the parent's atoms whose fragment is in real or ghost, in original order, each once; flag = (its fragment is in real)"),
@@ -40,32 +60,64 @@ THEOREMS = [
     ("QcelVerif.Formula.formula_alphabetical_sorted", "alphabetical order: element keys are sorted (le a total preorder)"),
     ("QcelVerif.Formula.formula_hill", "Hill order: without C plain sorted; with C: C, then H if present, then the others sorted"),
     ("QcelVerif.Formula.order_idempotent_tokens", "re-ordering a formula's own tokens (expanded to symbols) gives the same tokens, both conventions (le a total order)"),
+    # --- string (List Char) level of the formula functions
+    ("QcelVerif.Formula.digitsVal_toDigits_roundtrip", "int(str(n)) = n for every n: the decimal digits render writes for a count are ASCII digits, at least one, and splitCount's digit reader returns n"),
+    ("QcelVerif.Formula.toDigits_digitsVal", "converse: a non-empty ASCII digit string without leading zero is str(int(it))"),
+    ("QcelVerif.Formula.render_toList", "the rendered formula is, character by character, the concatenation over the tokens of key ++ (decimal digits of the count if > 1)"),
+    ("QcelVerif.Formula.parse_render", "parse(render(tokens)) = tokens for ALL token lists with keys satisfying KeyOK ([A-Z] then any number of non-[A-Z] non-digit characters), distinct keys, positive counts: the [A-Z][^A-Z]* cut, the (\\D+)(\\d*) split and the dict accumulation of order_molecular_formula return exactly the element counts, in order"),
+    ("QcelVerif.Formula.parse_formula", "for all symbol lists whose title-cased symbols are WFSym ([A-Z][a-z]*): tokenising molecular_formula_from_symbols(syms, order) gives exactly the (element, count) tokens of formula_counts"),
+    ("QcelVerif.Formula.order_convert_tokens", "token level, both conventions: ordering the expanded tokens of a formula in convention o' gives the tokens of the original symbols in convention o' (generalises order_idempotent_tokens)"),
+    ("QcelVerif.Formula.order_formula_of_formula", "string level, all WFSym symbol lists, all o, o': order_molecular_formula(molecular_formula_from_symbols(syms, o), o') succeeds and equals molecular_formula_from_symbols(syms, o') character for character (conversion between alphabetical and Hill)"),
+    ("QcelVerif.Formula.order_formula_idempotent", "string level: a library-written formula is a fixed point of order_molecular_formula in its own convention"),
+    ("QcelVerif.Formula.order_formula_twice", "string level: re-ordering twice (any conventions) = re-ordering once into the last convention"),
+    ("QcelVerif.Formula.wfSym_title_of_rawSym", "str.title() of any non-empty word of ASCII letters (any case) is WFSym"),
+    ("QcelVerif.Formula.title_wfSym", "str.title() leaves a WFSym symbol unchanged"),
+    ("QcelVerif.Formula.periodic_symbols_wf", "every symbol of the shipped periodic table (regenerated from nist_2011_atomic_weights.py) is WFSym with at most two lower-case letters, and its packing is lossless [decide +kernel over the whole table]"),
+    ("QcelVerif.Formula.periodic_symbols_count", "that table has at least 118 rows (non-vacuity of the table statement)"),
+    ("QcelVerif.Formula.order_formula_periodic", "for every list of periodic-table symbols: order_molecular_formula of the library-written formula = the library-written formula of the requested convention (no hypothesis left)"),
+    # --- per-fragment variants
+    ("QcelVerif.Fragments.nelectrons_fragment", "nelectrons(k) for a duplicate-free fragment (real and ghost atoms mixed allowed) = sum of Z over the fragment's atoms flagged real - fragment_charges[k]"),
+    ("QcelVerif.Fragments.zeffIn_eq_listed", "the enumerate/`in` sum of nelectrons(ifr) equals the sum of Z*real over the listed atom indices (duplicate-free list; indices outside the molecule count 0)"),
+    ("QcelVerif.Fragments.nre_fragment", "nuclear_repulsion_energy(ifr) = pair sum restricted to the atoms of the fragment with non-zero Z*real (any field, any distance function)"),
+    ("QcelVerif.Fragments.nre_fragment_real", "the same with the molecule's flags: pair sum over the fragment's atoms flagged real only"),
+    ("QcelVerif.Fragments.nre_fragment_all_ghost", "a fragment of ghost atoms only has nuclear repulsion energy 0"),
+    ("QcelVerif.Fragments.nre_append", "NRE of two blocks = NRE(A) + NRE(B) + the inter-block pair terms"),
+    ("QcelVerif.Fragments.nre_not_additive", "per-fragment energies do NOT add up to the molecule's (concrete counter-example H|H); additivity is not claimed"),
 ]
 TRUSTED_BASE = [
     "Lean 4.33 kernel; axioms per theorem audited on every run (subset of propext, Classical.choice, Quot.sound)",
-    "hand-written models Model/Fragments.lean (get_fragment both paths, defaults, nelectrons, NRE pair sum) and Model/Formula.lean, tied by differential correspondence on the generated stream",
+    "hand-written models Model/Fragments.lean (get_fragment both paths, defaults, nelectrons() and nelectrons(ifr), NRE pair sum for the molecule and for one fragment) and Model/Formula.lean (render, title, regex cuts, dict accumulation), tied by differential correspondence on the generated stream",
     "the constructor's charge/multiplicity validation is C05's model ChgMult.vfc (its own correspondence is C05's)",
     "symbols/masses/geometry are one per-atom payload list in the model (the code indexes the three arrays with the same index); the harness compares each array separately against the model's index list",
     "NRE theorems are over an arbitrary field and an abstract distance function; the driver evaluates the pair sum exactly over Rat on the distances numpy computed; float rounding of the implementation is bounded by a stated tolerance",
-    "string rendering/parsing of formulas (digits, regex cuts) is executable model + differential only; the theorems are about the (element,count) token list",
+    "formula strings: the theorems of Props/C15FormulaStr.lean are about the SAME executable String model the driver runs (render / cutUpper / splitCount / addCount / orderFormula / fromSymbols) — proved for all inputs under the stated hypothesis WFSym/KeyOK; that this hand-written model of the two regexes r'[A-Z][^A-Z]*' (findall) and r'(\\D+)(\\d*)' (match) and of str.title()/str(int)/int(str) behaves like CPython on ASCII text is tied by the differential streams fs/of (incl. every periodic-table symbol and free-form strings), not proved",
+    "Gen/PT.lean is regenerated on every run from qcelemental/data/nist_2011_atomic_weights.py by C01's translator tools/gen_periodic.py (re-encoding only; its own cross-check is C01's); that a validated molecule's symbols are symbols of that table is C04/C06's business",
+    "Lean core library facts about Nat.toDigits / String.toList / String order (Init.Data.Nat.ToString, Init.Data.String.Lemmas) — kernel-checked",
     "harness/c15.py generators and the Python oracle; periodic-table Z via qcelemental.periodictable (C01)",
 ]
 ASSUMPTIONS = [
     "integer fragment charges and multiplicities (scope of C05's model)",
     "parents are validated molecules (fragments contiguous and ascending); real/ghost are disjoint lists of distinct valid fragment numbers, not both empty (overlap is generated as an error case for the correspondence only)",
-    "orientation (orient=True) is not modelled here (C16): checked through invariants against the orient=False result",
-    "ASCII symbols for the formula functions",
+    "orientation (orient=True) is not modelled here (C16): checked by the oracle only — every non-geometric field (all serialised fields except geometry, and the derived per-atom attributes) identical to the orient=False result, pair distances equal index by index, NRE and electron counts unchanged",
+    "ASCII symbols for the formula functions; the string-level theorems assume title-cased symbols of the shape [A-Z][a-z]* (discharged for the whole periodic table; any-case words of ASCII letters reduce to it); a key containing a digit, a second capital or a letter after a non-letter is outside them (counter-example in the Lean file)",
+    "NRE additivity over fragments is false (nre_not_additive) and is not part of the property",
 ]
 RULE = (
     "parents: random validated molecules, 1-5 fragments of 1-3 atoms, ghost atoms / whole ghost fragments, charged and open-shell fragments, "
     "isotopes, optional explicit totals; for parents with <=4 fragments EVERY ordered pair (real list, ghost list) of disjoint fragment subsets in every order "
     "(5 fragments: sampled) x group_fragments on/off x orient on/off; a case is distinct by (parent hash, real, ghost, group, orient) and non-trivial when >=2 "
     "fragments are involved, or a ghost/charged/open-shell fragment is selected, or the outcome is an error. Formula: every multiset of size <=6 over a "
-    "12-symbol alphabet (C H Ca Cl He Hf B Br N O Zn Ar; shuffled, random case) x both orders, + random formula strings for order_molecular_formula."
+    "12-symbol alphabet (C H Ca Cl He Hf B Br N O Zn Ar; shuffled, random case) x both orders, + every symbol of qcelemental.periodictable.E alone with counts 1, 2 and a random "
+    "two/three-digit count and in random multisets over the whole table, + random formula strings for order_molecular_formula. Per-fragment calls: nelectrons(k) and "
+    "nuclear_repulsion_energy(k) for every fragment of every parent (about a third of the multi-atom parent fragments mix real and ghost atoms; a forced-mixed parent stream) and of every heavy-checked child."
 )
 LEVEL_TEXT = (
-    "Lean proofs (unbounded sizes) about the model of get_fragment / nelectrons / NRE pair sum / formula tokens; the model is tied to the code by exhaustive-"
-    "over-subsets differential runs on generated molecules; pydantic construction, orientation, float arithmetic and string rendering are differential only (partial)."
+    "Lean proofs (unbounded sizes) about the model of get_fragment / nelectrons (molecule and per fragment) / NRE pair sum (molecule and per fragment: real nuclei of the "
+    "fragment only; not additive) / formula tokens AND formula strings: for all symbol lists of the shape [A-Z][a-z]* (every periodic-table symbol, decided over the "
+    "regenerated table) the rendered string parses back through the modelled regex cuts to exactly the element counts (digits by a proved Nat<->decimal round trip) and "
+    "order_molecular_formula is idempotent and converts between alphabetical and Hill order character for character. The model is tied to the code by exhaustive-"
+    "over-subsets differential runs on generated molecules and by the formula streams; that the hand model of the regexes/str.title/str(int) matches CPython, pydantic "
+    "construction, orientation and float arithmetic are differential only (partial)."
 )
 TECHNIQUE = "Lean 4 proof of list/partition/sum theorems about a hand model + behavioural correspondence + independent oracle"
 
@@ -88,8 +140,10 @@ def zof(sym):
 # parents
 
 
-def gen_parent_spec(rng, nfr):
-    """kwargs (JSON-able) of a validated molecule with `nfr` fragments."""
+def gen_parent_spec(rng, nfr, force_mixed=False):
+    """kwargs (JSON-able) of a validated molecule with `nfr` fragments.
+    force_mixed: the first fragment gets >= 2 real atoms and >= 1 ghost atom (per-fragment calls on a
+    fragment mixing real and ghost atoms)."""
     symbols, real, frags, geom, fcs, fms, mass_numbers = [], [], [], [], [], [], []
     sites = [(i, j, k) for i in range(4) for j in range(4) for k in range(3)]
     rng.shuffle(sites)
@@ -97,11 +151,19 @@ def gen_parent_spec(rng, nfr):
     for _k in range(nfr):
         na = rng.choice([1, 1, 2, 2, 3])
         ghost_frag = rng.random() < 0.18
+        forced = None
+        if force_mixed and _k == 0:
+            na = rng.choice([3, 3, 4])
+            ghost_frag = False
+            forced = [True, True, False] + [rng.random() < 0.5 for _ in range(na - 3)]
+            rng.shuffle(forced)
         fr = []
         zreal = 0
         for _a in range(na):
             s = rng.choice(ELEMS)
             rl = not ghost_frag and rng.random() > 0.15
+            if forced is not None:
+                rl = forced[_a]
             iso = -1
             if s in ISOTOPES and rng.random() < 0.25:
                 iso = rng.choice(ISOTOPES[s])
@@ -470,7 +532,7 @@ def check_electrons(mol, C, viol):
 def check_nre(mol, C, viol, pend, case):
     zr = [zof(s) * int(r) for s, r in zip(C["symbols"], C["real"])]
     n = len(zr)
-    targets = [None] + list(range(len(C["fragments"]))) if len(C["fragments"]) > 1 else [None]
+    targets = [None] + list(range(len(C["fragments"])))
     for ifr in targets:
         v = mol.nuclear_repulsion_energy(ifr)
         idx = list(range(n)) if ifr is None else C["fragments"][ifr]
@@ -479,6 +541,16 @@ def check_nre(mol, C, viol, pend, case):
             viol("oracle:nre", "nuclear repulsion energy is not the sum over pairs of REAL nuclei of Z1 Z2 / r12", frepr(v) if v == v else "nan", str(ex), extra={"ifr": ifr})
         if pend is not None:
             pend.add(nre_line(mol, ifr), "nre", float(v), case)
+
+
+def nongeom_fields(mol):
+    """all serialised fields except the geometry, plus the derived per-atom attributes"""
+    d = json.loads(mol.json())
+    d.pop("geometry", None)
+    d["atomic_numbers"] = [int(z) for z in mol.atomic_numbers]
+    d["mass_numbers"] = [int(a) for a in mol.mass_numbers]
+    d["atom_labels"] = [str(x) for x in mol.atom_labels]
+    return d
 
 
 def check_orient(ctx, out, spec, parent, P, R, G, group, child):
@@ -500,6 +572,13 @@ def check_orient(ctx, out, spec, parent, P, R, G, group, child):
         if A[key] != B[key]:
             viol("oracle:orient", "orient=True changes " + key, B[key], A[key])
             return
+    # every other non-geometric field: the serialised record minus geometry, and the derived per-atom attributes
+    fa, fb = nongeom_fields(child), nongeom_fields(res[1])
+    if fa != fb:
+        diff = sorted(k for k in set(fa) | set(fb) if fa.get(k, "<absent>") != fb.get(k, "<absent>"))
+        viol("oracle:orient_fields", "orient=True changes non-geometric field(s) " + ",".join(diff),
+             {k: fb.get(k, "<absent>") for k in diff}, {k: fa.get(k, "<absent>") for k in diff})
+        return
     ga, gb = np.array(A["geometry"]), np.array(B["geometry"])
     da = np.linalg.norm(ga[:, None, :] - ga[None, :, :], axis=2)
     db = np.linalg.norm(gb[:, None, :] - gb[None, :, :], axis=2)
@@ -666,6 +745,21 @@ def formula_streams(ctx, out: Outcome, pend: Pending):
         rng.shuffle(syms)
         out.count("formula:two_digit_counts")
         formula_case(out, pend, syms, rng.choice(["alphabetical", "hill"]))
+    # every symbol of the periodic table: alone (count 1, 2, a random two/three-digit count), and random multisets
+    import qcelemental as qcel
+
+    table = [str(e) for e in qcel.periodictable.E]
+    for e in table:
+        out.count("formula:periodic_symbol")
+        for cnt in (1, 2, rng.randint(10, 250)):
+            formula_case(out, pend, [random_case_variant(rng, e)] * cnt, rng.choice(["alphabetical", "hill"]))
+    for _ in range(ctx.scale(300, 3000)):
+        syms = [random_case_variant(rng, rng.choice(table)) for _ in range(rng.randint(1, 30))]
+        if rng.random() < 0.5:
+            syms += ["C"] * rng.randint(1, 12) + ["h"] * rng.randint(0, 24)
+            rng.shuffle(syms)
+        out.count("formula:periodic_multiset")
+        formula_case(out, pend, syms, rng.choice(["alphabetical", "hill"]))
     # order_molecular_formula on free-form formula strings (correspondence; errors included)
     pieces = ["C", "H", "Cl", "Ca", "He", "O", "N", "c", "l", "2", "10", "0", "3", "x", "-", " ", "Br", "Zn"]
     for _ in range(ctx.scale(1500, 15000)):
@@ -751,6 +845,15 @@ def run_parent(ctx, out, pend, spec, pairs_limit=None, orient_every=1):
         out.count("parents_isotopic")
     if parent.__dict__.get("fragments_") is None:
         out.count("parents_default_fragment_properties")
+    for fr in P["fragments"]:
+        out.count("per_fragment_calls")
+        flags = [P["real"][i] for i in fr]
+        if any(flags) and not all(flags):
+            out.count("per_fragment_calls:fragment_mixes_real_and_ghost")
+            if sum(flags) >= 2:
+                out.count("per_fragment_calls:mixed_with_a_real_pair")
+        elif not any(flags):
+            out.count("per_fragment_calls:fragment_all_ghost")
     out.sample({"parent": {k: spec[k] for k in spec if k != "geometry"}, "formula": parent.get_molecular_formula("hill", chgmult=True)})
     check_parent(ctx, out, pend, spec, parent, P)
     pairs = all_pairs(nfr)
@@ -778,6 +881,9 @@ def run(ctx: Ctx) -> Outcome:
             run_parent(ctx, out, pend, gen_parent_spec(rng, nfr))
     for _ in range(ctx.scale(6, 40)):
         run_parent(ctx, out, pend, gen_parent_spec(rng, 5), pairs_limit=ctx.scale(80, 200))
+    # parents whose first fragment mixes >= 2 real atoms with >= 1 ghost atom (per-fragment electrons / NRE)
+    for _ in range(ctx.scale(30, 200)):
+        run_parent(ctx, out, pend, gen_parent_spec(rng, rng.choice([1, 2, 2, 3]), force_mixed=True))
     formula_streams(ctx, out, pend)
     compare(ctx, out, pend)
     out.exhaustive = False
